@@ -35,7 +35,123 @@ func (o *Ob) rejectsAfter(fn *ssa.Function, lit LitM, key, what string, acceptin
 			}
 		}
 	}
+	if n == 0 && o.tableRejects(fn, lit, accepting) {
+		o.SiteS(fnName(fn) + ": " + lit.Desc + " ⇒ error (through a table of checks)")
+		o.Checks++
+		o.Passed++
+		return
+	}
 	o.Check(n > 0, key+"|missing", what+": "+fnName(fn)+" no longer tests "+lit.Desc, nil)
+}
+
+// tableRejects: the condition is not branched on where it is computed but filed in a local table of checks
+// ("{cond, message}" entries of an array literal) that a loop then goes through, returning an error for the first
+// entry whose condition holds.  True when: the condition matched by lit is stored into a boolean field of an entry
+// of such a table; a loop over the whole table tests that field of the entry of the iteration; the edge on which it
+// holds reaches only error returns; and the accepting exits lie behind that loop.
+func (o *Ob) tableRejects(fn *ssa.Function, lit LitM, accepting []ssa.Instruction) bool {
+	e := o.E
+	idx := fn.Signature.Results().Len() - 1
+	for _, in := range AllInstrs(fn) {
+		st, ok := in.(*ssa.Store)
+		if !ok || !isBoolType(st.Val.Type()) {
+			continue
+		}
+		fa, ok := st.Addr.(*ssa.FieldAddr)
+		if !ok {
+			continue
+		}
+		ia, ok := fa.X.(*ssa.IndexAddr)
+		if !ok {
+			continue
+		}
+		tbl, ok := ia.X.(*ssa.Alloc)
+		if !ok {
+			continue
+		}
+		arr, ok := tbl.Type().(*types.Pointer).Elem().Underlying().(*types.Array)
+		if !ok {
+			continue
+		}
+		if _, isK := ia.Index.(*ssa.Const); !isK || !lit.F(e.CondLit(fn, st.Val)) {
+			continue
+		}
+		// the entry of an iteration: tbl[i] itself or a local copy of it
+		entryOf := func(base ssa.Value) bool {
+			if x, ok := base.(*ssa.IndexAddr); ok && x.X == ssa.Value(tbl) {
+				return true
+			}
+			if r, ok := base.(*ssa.Alloc); ok {
+				for _, ref := range *r.Referrers() {
+					if s2, ok := ref.(*ssa.Store); ok && s2.Addr == ssa.Value(r) {
+						switch v := s2.Val.(type) {
+						case *ssa.UnOp:
+							if x, ok := v.X.(*ssa.IndexAddr); ok && x.X == ssa.Value(tbl) {
+								return true
+							}
+						case *ssa.Index:
+							// ranging over the array by value: the array is loaded once, then indexed
+							if u, ok := v.X.(*ssa.UnOp); ok && u.X == ssa.Value(tbl) {
+								return true
+							}
+						}
+					}
+				}
+			}
+			return false
+		}
+		for _, b := range fn.Blocks {
+			if len(b.Instrs) == 0 {
+				continue
+			}
+			iff, isIf := b.Instrs[len(b.Instrs)-1].(*ssa.If)
+			if !isIf {
+				continue
+			}
+			u, ok := iff.Cond.(*ssa.UnOp)
+			if !ok || u.Op != token.MUL {
+				continue
+			}
+			fa2, ok := u.X.(*ssa.FieldAddr)
+			if !ok || fa2.Field != fa.Field || !entryOf(fa2.X) {
+				continue
+			}
+			l := e.LoopOf(iff)
+			if l == nil {
+				continue
+			}
+			// the whole table
+			whole := false
+			if hif, isH := l.Header.Instrs[len(l.Header.Instrs)-1].(*ssa.If); isH {
+				whole = e.CondLit(fn, hif.Cond).Atom == "(i < "+itoa(int(arr.Len()))+")"
+			}
+			if c, _ := e.RangeOver(l); c == e.X(fn, tbl) || c == "var:"+tbl.Comment {
+				whole = true
+			}
+			if !whole || loopBackWithout(o, l, IsInstr(iff), nil) {
+				continue
+			}
+			// holding ⇒ error
+			r := (&Walk{Fn: fn}).FromEdge(b, 0)
+			bad := false
+			for _, ret := range r.Returns() {
+				for _, v := range e.ValStrs(fn, e.RetVals(r, ret, idx)) {
+					if v == "nil" {
+						bad = true
+					}
+				}
+			}
+			for _, acc := range accepting {
+				if r.Has(acc) || !InstrDominates(l.Header.Instrs[0], acc) {
+					bad = true
+				}
+			}
+			if !bad && InstrDominates(st, l.Header.Instrs[0]) {
+				return true
+			}
+		}
+	}
+	return false
 }
 
 func init() {
@@ -192,9 +308,19 @@ func init() {
 				if regexpMatch(lit+`\[i\]`, coll) {
 					// the inner loop of the literal form: the outer one must visit every list of the literal
 					for _, ol := range e.Loops(ct) {
+						if ol.Header == l.Header || !ol.Blocks[l.Header.Index] {
+							continue
+						}
 						oc, ok2 := e.RangeOver(ol)
-						if ok2 == "index" && regexpMatch(lit, oc) && ol.Blocks[l.Header.Index] {
+						if ok2 == "index" && regexpMatch(lit, oc) {
 							found = true
+						}
+						// an array literal is ranged with a constant bound: it must be the number of its lists
+						if iff, isIf := ol.Header.Instrs[len(ol.Header.Instrs)-1].(*ssa.If); isIf {
+							n := strings.Count(strings.TrimSuffix(coll, "[i]"), ", ") + 1
+							if e.CondLit(ct, iff.Cond).Atom == "(i < "+itoa(n)+")" {
+								found = true
+							}
 						}
 					}
 				}
